@@ -164,6 +164,20 @@ def main(argv=None):
     else:
         results = [_run_one((prop, i)) for i in idxs]
 
+    # Budgets are wall-clock.  A harness that ended UNDECIDED (no violation, no checker error) while the other harnesses of this check - and
+    # whatever else the machine was running - competed for the cores is attempted once more, now with the pool to itself; only a second
+    # undecided outcome is reported.  The second attempt replaces the first entirely, a violation found by it is reported as any other.
+    reattempted = []
+    if a.jobs > 1:
+        for k, r in enumerate(results):
+            if r.get('errors') or any(o['sat'] > 0 and not o['expect_fail'] and not on.startswith('KF:') for on, o in r.get('obligations', {}).items()):
+                continue
+            if r.get('undecided') and all(str(u).startswith('unsupported') for u in r['undecided']):
+                continue      # a construct outside the engine's subset: a second attempt ends the same way
+            if r.get('undecided') or any(o['unknown'] > 0 and not o['expect_fail'] for o in r.get('obligations', {}).values()):
+                reattempted.append(r['harness'])
+                results[k] = _run_watchdog(prop, [idxs[k]], hs, 1, HARD_LIMIT_S[a.tier if a.tier in HARD_LIMIT_S else 'quick'])[0]
+
     # bounded stand-ins and probes registered by the contract modules
     bounded = []
     for m in mods:
@@ -316,7 +330,7 @@ def main(argv=None):
             'covers': {r['harness']: r.get('covers', {}) for r in results if r.get('covers')},
             'bounded': [{k: v for k, v in b.items() if k != 'violations'} for b in bounded],
             'samples': samples or [{'note': 'no discharged obligation to sample'}],
-            'undecided': undecided, 'checker_errors': errors[:20],
+            'undecided': undecided, 'checker_errors': errors[:20], 'harnesses_attempted_twice': reattempted,
             'known_findings_reported': [k for k, _, _ in known_hits],
             'lemmas': lean_result,
         },
